@@ -1,12 +1,14 @@
 import MgpuModel.C18_Base
 import MgpuModel.C18_Sys
 import MgpuModel.C18_Mem
+import MgpuModel.C18_Plat
 /-! # C18 — line-protocol entry point
 
 `C18_Base.lean`: the tick-exact RDMA engine, work-group distribution, owner maps (case lines
 `c18 rdma|wg|own`). `C18_Sys.lean`: n engines composed through a network with arbitrary requesters
 and responders (`c18 sys`). `C18_Mem.lean`: virtual memory over an arbitrary page placement
-(`c18 mem`). -/
+(`c18 mem`). `C18_Plat.lean`: the routing configuration of the platform builders, regenerated from
+their sources (`c18 plat`, `c18 platx`). -/
 namespace C18
 open Util
 
@@ -20,6 +22,9 @@ def handle (line : String) : String :=
     | "c18" :: "own" :: cfg => handleOwn cfg
     | "c18" :: "sys" :: cfg => handleSys cfg rest
     | "c18" :: "mem" :: cfg => handleMem cfg rest
+    | "c18" :: "plat" :: cfg => handlePlat cfg
+    | "c18" :: "platx" :: cfg => handlePlatX cfg
+    | "c18" :: "runner" :: cfg => handleRunner cfg
     | _ => "bad"
 
 end C18
